@@ -115,7 +115,8 @@ def main():
 
 def run(prop, tier, seed, ws, directives, args, t_start):
     known = load_known()
-    dump = ws.dump(extra_args=["-roots", "VH_%s_" % prop])
+    extra = ",".join(pkgpath(pd) + ".vCipherFor" for pd in ws.pkgdirs)
+    dump = ws.dump(extra_args=["-roots", "VH_%s_" % prop, "-extra", extra])
     prog = X.Program(dump)
     base_opts = {"workers": args.workers, "witness": True, "witness_rate": 1.0, "tier": tier, "verbose": args.verbose}
     pkgs = [pkgpath(pd) for pd in ws.pkgdirs]
